@@ -172,4 +172,14 @@ SIClauses(e) ==
               /\ Ok(e.out)
               /\ LET S == SIByAbbr(e.key.cp) IN
                  IF S = {} THEN e.out.ok = "-" ELSE e.out.ok = SITable[CHOOSE i \in S : TRUE].id) >>
+---------------------------------------------------------------------------
+(* Beyond the listed properties: the derive macros VariantsAsConstants and *)
+(* EnumIter (iteration in declaration order; one constant per variant,     *)
+(* named by the same identifier mapping as unit constants).                *)
+DeriveClauses(e) ==
+    << Cl("X01.enum_iter_in_declaration_order", TRUE,
+              Len(e.iter) = Len(e.variants) /\ \A i \in DOMAIN e.variants : e.iter[i].cp = e.variants[i].cp),
+       Cl("X01.variant_constants", TRUE,
+              Len(e.consts) = Len(e.variants) /\
+              \A i \in DOMAIN e.variants : e.consts[i].id.cp = e.variants[i].cp /\ e.consts[i].c.cp = ConstOf(e.variants[i].cp)) >>
 =============================================================================
